@@ -19,10 +19,14 @@ package history
 //@   pure
 //@   ensures 0 <= p0 && p0 < len(entries(self)) ==> result1 == nil && result0 == entries(self)[p0]
 
+// appended1(s, line): source s got exactly one new entry, equal to line up to surrounding white space
+//@ pred appended1(s Source, line string) = len(entries(s)) == old(len(entries(s))) + 1 && entries(s)[:old(len(entries(s)))] == old(entries(s)) && strtrim(entries(s)[old(len(entries(s)))]) == strtrim(line)
+
 //@ fntype (Source).Write
-//@   assumed interface contract: appends at most one entry; earlier entries are never modified
+//@   assumed interface contract: appends at most one entry, equal to the argument up to surrounding white space; earlier entries are never modified; a non-blank line different from the last entry is always appended
 //@   assigns entries(self)
-//@   ensures entries(self) == old(entries(self)) || (len(entries(self)) == old(len(entries(self))) + 1 && entries(self)[:old(len(entries(self)))] == old(entries(self)))
+//@   ensures entries(self) == old(entries(self)) || appended1(self, p0)
+//@   ensures len(strtrim(p0)) > 0 && (old(len(entries(self))) == 0 || strtrim(old(entries(self))[old(len(entries(self))) - 1]) != strtrim(p0)) ==> appended1(self, p0)
 
 // memory: entries(h) is h.items
 //@ func (*memory).Len
@@ -175,3 +179,45 @@ package history
 //@   requires hvalid(h) && allok() && !h.undoing
 //@   assigns h.skip, h.undoing, *h.line, h.cursor.pos, h.cursor.mark, mapof(h.lines), anymapof("map[int]*lineHistory"), anyof("lineHistory", "pos"), anyof("lineHistory", "items")
 //@   ensures [ri] allok()
+
+// ---------------------------------------------------------------------------------------
+// C08: accepted lines are recorded exactly once
+
+// recorded(s): what Write(false) must have done to bound source s for the accepted text
+//@ spec hline(h *Sources) string = str(*h.line)
+//@ pred isdup(s Source, line string) = old(len(entries(s))) > 0 && len(old(entries(s))[old(len(entries(s))) - 1]) > 0 && strtrim(old(entries(s))[old(len(entries(s))) - 1]) == strtrim(line)
+//@ pred isfull(h *Sources, s Source) = h.maxEntries == 0 || (h.maxEntries > 0 && old(len(entries(s))) >= h.maxEntries)
+// sources bound under different names are different objects
+//@ pred hdistinct(h *Sources) = allkeys(a, h.list, allkeys(b, h.list, a == b || h.list[a] == nil || h.list[a] != h.list[b]))
+
+//@ func (*Sources).Write
+//@   props C08 C01
+//@   terminates
+//@   requires hvalid(h) && hdistinct(h) && h.hint != nil
+//@   assigns h.infer, anyghost(entries), anyof("ui.Hint", "*")
+//@   ensures [never-when-replaying] infer ==> allobj(s, "Source", entries(s) == old(entries(s)))
+//@   ensures [never-blank] len(strtrim(hline(h))) == 0 ==> allobj(s, "Source", entries(s) == old(entries(s)))
+//@   ensures [at-most-once] allobj(s, "Source", entries(s) == old(entries(s)) || appended1(s, hline(h)))
+//@   ensures [only-bound-sources] allobj(s, "Source", entries(s) == old(entries(s)) || !allkeys(k, h.list, h.list[k] != s))
+//@   ensures [exactly-once] !infer && len(strtrim(hline(h))) > 0 ==> allkeys(k, h.list, h.list[k] == nil || isfull(h, h.list[k]) || isdup(h.list[k], hline(h)) || appended1(h.list[k], hline(h)))
+//@   loop 1 invariant 0 <= itpos && itpos <= len(itkeys) && !infer && len(strtrim(hline(h))) > 0 && line == hline(h) && *h.line == old(*h.line)
+//@   loop 1 invariant allobj(s, "Source", entries(s) == old(entries(s)) || (appended1(s, hline(h)) && any(j, 0, itpos, h.list[itkeys[j]] == s)))
+//@   loop 1 invariant all(j, 0, itpos, h.list[itkeys[j]] == nil || isfull(h, h.list[itkeys[j]]) || isdup(h.list[itkeys[j]], hline(h)) || appended1(h.list[itkeys[j]], hline(h)))
+
+//@ func (*Sources).Accept
+//@   props C08 C06 C01
+//@   terminates
+//@   requires hvalid(h) && hdistinct(h) && h.hint != nil
+//@   ensures [returned-is-buffer] h.accepted && h.acceptLine == old(*h.line) && h.acceptErr == err && h.acceptHold == hold
+//@   ensures [errors-not-recorded] err != nil ==> allobj(s, "Source", entries(s) == old(entries(s)))
+//@   ensures [replays-not-recorded] infer ==> allobj(s, "Source", entries(s) == old(entries(s)))
+//@   ensures [at-most-once] allobj(s, "Source", entries(s) == old(entries(s)) || appended1(s, str(old(*h.line))))
+//@   ensures [exactly-once] err == nil && !infer && len(strtrim(str(old(*h.line)))) > 0 ==> allkeys(k, h.list, h.list[k] == nil || isfull(h, h.list[k]) || isdup(h.list[k], str(old(*h.line))) || appended1(h.list[k], str(old(*h.line))))
+
+//@ func (*Sources).LineAccepted
+//@   props C08 C06 C01
+//@   terminates
+//@   requires hvalid(h) && h.config != nil
+//@   ensures [returned-is-accepted] h.accepted ==> result0 && result1 == str(h.acceptLine) && result2 == h.acceptErr
+//@   ensures !h.accepted ==> !result0
+//@   ensures allobj(s, "Source", entries(s) == old(entries(s)))
